@@ -203,6 +203,7 @@ SubOK(b, subs, norm) ==
              ELSE /\ \A i \in 1..Len(subs) : subs[i].k >= 1
                   /\ SumK(subs) = b.k
      ELSE /\ Len(subs) = 1 /\ subs[1].o = <<>>
+          /\ (shots # NoneShots => subs[1].k = b.k)       \* a gate / preparation returns its branch with frequency 1
 
 MergedOK(b, s, m) ==   \* outcome = previous ++ new; frequency = product
   /\ m.o = b.o \o s.o
